@@ -15,10 +15,38 @@ namespace Rough
 namespace Bridge
 open Rough.Stats
 
+/-- the fields of the generated server that the datagram path (`collect_requests`, `service_socket`) never reads or writes -/
+structure GenRest where
+  health_listener : Option Unit := none
+  poll_duration : Option Rs.Time := none
+  poll : Gen.Poll := {}
+  thread_name : String := ""
+  stats_pub_freq : Rs.Time := ⟨0, 0⟩
+  stats_pub_timer : List Rs.Time := []
+  stats_queue : List (List Gen.ClientStats) := []
+  tcp : Gen.Tcp := {}
+  recorder_kind : Option Nat := none
+
 /-- the generated server of a model server with its environment -/
-def toGenServer (s : Server) (sock : Gen.Sock) (buf : Bytes) (backlog : Bool) (ev : List Event)
+def toGenServer (x : GenRest) (s : Server) (sock : Gen.Sock) (buf : Bytes) (backlog : Bool) (ev : List Event)
     (gI gC : Gen.GreaseQ) : Gen.Server :=
-  ⟨s.batchSize, sock, toGenResponder s.ietf gI, toGenResponder s.classic gC, buf, s.srv, backlog, ev⟩
+  { batch_size := s.batchSize, socket := sock, health_listener := x.health_listener,
+    poll_duration := x.poll_duration, poll := x.poll,
+    responder_ietf := toGenResponder s.ietf gI, responder_classic := toGenResponder s.classic gC,
+    buf := buf, thread_name := x.thread_name, srv_value := s.srv, socket_backlog := backlog,
+    stats_pub_freq := x.stats_pub_freq, stats_pub_timer := x.stats_pub_timer, stats_recorder := ev,
+    stats_queue := x.stats_queue, tcp := x.tcp, recorder_kind := x.recorder_kind }
+
+/-- the part of a generated server state that `GenRest` describes -/
+def restOf (g : Gen.Server) : GenRest :=
+  { health_listener := g.health_listener, poll_duration := g.poll_duration, poll := g.poll,
+    thread_name := g.thread_name, stats_pub_freq := g.stats_pub_freq, stats_pub_timer := g.stats_pub_timer,
+    stats_queue := g.stats_queue, tcp := g.tcp, recorder_kind := g.recorder_kind }
+
+theorem restOf_toGenServer (x : GenRest) (s : Server) (sock : Gen.Sock) (buf : Bytes) (backlog : Bool) (ev : List Event)
+    (gI gC : Gen.GreaseQ) : restOf (toGenServer x s sock buf backlog ev gI gC) = x := rfl
+
+theorem restOf_backlog (g : Gen.Server) (b : Bool) : restOf { g with socket_backlog := b } = restOf g := rfl
 
 /-- what is observable of a generated server state (the receive buffer's stale content is not) -/
 def obsServer (g : Gen.Server) :
@@ -46,20 +74,20 @@ def collectPost (f : Rs.Flow Gen.Server (Bool × Gen.Server)) : Bool × Gen.Serv
 
 /-- loop rule for `collect_requests` over an abstract body: an iteration on an empty queue returns `true`, an iteration
     on a non-empty queue is the model's `collectOne` of the oldest datagram -/
-theorem collect_loop (E : Env) (backlog : Bool) (gI gC : Gen.GreaseQ)
+theorem collect_loop (E : Env) (x : GenRest) (backlog : Bool) (gI gC : Gen.GreaseQ)
     (body : Nat → Gen.Server → Res (Rs.Flow Gen.Server (Bool × Gen.Server)))
     (hempty : ∀ i s sock buf ev, sock.inq = [] →
-      body i (toGenServer s sock buf backlog ev gI gC) = .ok (.ret (true, toGenServer s sock buf backlog ev gI gC)))
+      body i (toGenServer x s sock buf backlog ev gI gC) = .ok (.ret (true, toGenServer x s sock buf backlog ev gI gC)))
     (hcons : ∀ i s sock buf ev d a rest, sock.inq = (d, a) :: rest → d.length ≤ buf.length →
-      body i (toGenServer s sock buf backlog ev gI gC) ≃ᵣ
+      body i (toGenServer x s sock buf backlog ev gI gC) ≃ᵣ
         (Server.collectOne E s ⟨a, d⟩).map (fun y => Rs.Flow.next
-          (toGenServer y.1 { sock with inq := rest } (d ++ buf.drop d.length) backlog (ev ++ [y.2]) gI gC))) :
+          (toGenServer x y.1 { sock with inq := rest } (d ++ buf.drop d.length) backlog (ev ++ [y.2]) gI gC))) :
     ∀ (l : List Nat) (s : Server) (sock : Gen.Sock) (buf : Bytes) (ev : List Event),
       (∀ p ∈ sock.inq, p.1.length ≤ buf.length) →
-      (Rs.forListR l (toGenServer s sock buf backlog ev gI gC) body).map collectPost ≃ᵣ
+      (Rs.forListR l (toGenServer x s sock buf backlog ev gI gC) body).map collectPost ≃ᵣ
         (Server.collect E s (toDatagrams (sock.inq.take l.length))).map (fun y =>
           (decide (sock.inq.length < l.length),
-            toGenServer y.1 { sock with inq := sock.inq.drop l.length } (bufAfter buf (sock.inq.take l.length)) backlog
+            toGenServer x y.1 { sock with inq := sock.inq.drop l.length } (bufAfter buf (sock.inq.take l.length)) backlog
               (ev ++ y.2) gI gC)) := by
   intro l
   induction l with
@@ -82,7 +110,7 @@ theorem collect_loop (E : Env) (backlog : Bool) (gI gC : Gen.GreaseQ)
       cases h1 : Server.collectOne E s ⟨a, d⟩ with
       | ok y =>
         rw [h1] at hb
-        cases h2 : body i (toGenServer s ⟨ok, n, out, (d, a) :: rest, clk⟩ buf backlog ev gI gC) with
+        cases h2 : body i (toGenServer x s ⟨ok, n, out, (d, a) :: rest, clk⟩ buf backlog ev gI gC) with
         | ok st =>
           rw [h2] at hb
           have e : st = _ := hb
@@ -100,13 +128,13 @@ theorem collect_loop (E : Env) (backlog : Bool) (gI gC : Gen.GreaseQ)
         | panic site => rw [h2] at hb; exact hb.elim
       | err =>
         rw [h1] at hb
-        cases h2 : body i (toGenServer s ⟨ok, n, out, (d, a) :: rest, clk⟩ buf backlog ev gI gC) with
+        cases h2 : body i (toGenServer x s ⟨ok, n, out, (d, a) :: rest, clk⟩ buf backlog ev gI gC) with
         | ok st => rw [h2] at hb; exact hb.elim
         | err => trivial
         | panic site => rw [h2] at hb; exact hb.elim
       | panic site0 =>
         rw [h1] at hb
-        cases h2 : body i (toGenServer s ⟨ok, n, out, (d, a) :: rest, clk⟩ buf backlog ev gI gC) with
+        cases h2 : body i (toGenServer x s ⟨ok, n, out, (d, a) :: rest, clk⟩ buf backlog ev gI gC) with
         | ok st => rw [h2] at hb; exact hb.elim
         | err => rw [h2] at hb; exact hb.elim
         | panic site => trivial
@@ -117,18 +145,18 @@ theorem collect_wrap (x : Res (Rs.Flow Gen.Server (Bool × Gen.Server)))
   cases x <;> simp [Res.bind, Res.map, hf]
 
 /-- exact form of `collect_requests_sim`: the whole server state afterwards -/
-theorem collect_requests_exact (E : Env) (hH : ∀ x, (E.H x).length = 64) (LOG : Nat) (s : Server) (sock : Gen.Sock)
+theorem collect_requests_exact (E : Env) (hH : ∀ z, (E.H z).length = 64) (LOG : Nat) (x : GenRest) (s : Server) (sock : Gen.Sock)
     (buf : Bytes) (backlog : Bool) (ev : List Event) (gI gC : Gen.GreaseQ)
     (hfit : ∀ p ∈ sock.inq, p.1.length ≤ buf.length) :
-    Gen.Server.collect_requests E.S E.H LOG (toGenServer s sock buf backlog ev gI gC)
+    Gen.Server.collect_requests E.S E.H LOG (toGenServer x s sock buf backlog ev gI gC)
       ≃ᵣ (Server.collect E s (toDatagrams (sock.inq.take s.batchSize))).map
         (fun y => (decide (sock.inq.length < s.batchSize),
-          toGenServer y.1 { sock with inq := sock.inq.drop s.batchSize } (bufAfter buf (sock.inq.take s.batchSize))
+          toGenServer x y.1 { sock with inq := sock.inq.drop s.batchSize } (bufAfter buf (sock.inq.take s.batchSize))
             backlog (ev ++ y.2) gI gC)) := by
   unfold Gen.Server.collect_requests
   simp only [Res.pure_eq, Res.bind_eq]
   rw [collect_wrap _ _ (fun x => by cases x <;> rfl)]
-  refine Res.Sim.trans (collect_loop E backlog gI gC _ ?hempty ?hcons (List.range s.batchSize) s sock buf ev hfit) ?fin
+  refine Res.Sim.trans (collect_loop E x backlog gI gC _ ?hempty ?hcons (List.range s.batchSize) s sock buf ev hfit) ?fin
   case fin =>
     rw [List.length_range]
     exact Res.Sim.refl _
@@ -179,15 +207,15 @@ theorem collect_requests_exact (E : Env) (hH : ∀ x, (E.H x).length = 64) (LOG 
 /-- `collect_requests`: reads `min(batch_size, |inq|)` datagrams, classifies each with the model's request classifier,
     queues it on the right responder and records the event; returns `true` iff the queue ran dry (WouldBlock) before
     `batch_size` datagrams were read.  Every queued datagram fits in the receive buffer. -/
-theorem collect_requests_sim (E : Env) (hH : ∀ x, (E.H x).length = 64) (LOG : Nat) (s : Server) (sock : Gen.Sock) (buf : Bytes)
+theorem collect_requests_sim (E : Env) (hH : ∀ z, (E.H z).length = 64) (LOG : Nat) (x : GenRest) (s : Server) (sock : Gen.Sock) (buf : Bytes)
     (backlog : Bool) (ev : List Event) (gI gC : Gen.GreaseQ)
     (hfit : ∀ p ∈ sock.inq, p.1.length ≤ buf.length) :
-    (Gen.Server.collect_requests E.S E.H LOG (toGenServer s sock buf backlog ev gI gC)).map
+    (Gen.Server.collect_requests E.S E.H LOG (toGenServer x s sock buf backlog ev gI gC)).map
         (fun x => (x.1, obsServer x.2))
       ≃ᵣ (Server.collect E s (toDatagrams (sock.inq.take s.batchSize))).map
         (fun y => (decide (sock.inq.length < s.batchSize),
-          obsServer (toGenServer y.1 { sock with inq := sock.inq.drop s.batchSize } buf backlog (ev ++ y.2) gI gC))) := by
-  have h := Sim.map_congr (collect_requests_exact E hH LOG s sock buf backlog ev gI gC hfit)
+          obsServer (toGenServer x y.1 { sock with inq := sock.inq.drop s.batchSize } buf backlog (ev ++ y.2) gI gC))) := by
+  have h := Sim.map_congr (collect_requests_exact E hH LOG x s sock buf backlog ev gI gC hfit)
     (fun x => (x.1, obsServer x.2))
   refine Res.Sim.trans h (Res.Sim.of_eq ?_)
   rw [map_map]
@@ -255,9 +283,9 @@ def sockAfter (s : Server) (sock : Gen.Sock) (sent : List Sent) : Gen.Sock :=
   { sock with inq := sock.inq.drop s.batchSize, n := sock.n + sent.length, out := sock.out ++ sent.map some }
 
 /-- the generated server after one batch whose model outputs are `y` -/
-def afterBatch (s : Server) (sock : Gen.Sock) (buf : Bytes) (backlog : Bool) (ev : List Event)
+def afterBatch (x : GenRest) (s : Server) (sock : Gen.Sock) (buf : Bytes) (backlog : Bool) (ev : List Event)
     (gI gC : List Grease) (cI cC : Grease) (y : Server × List Sent × List Event) : Gen.Server :=
-  toGenServer y.1 (sockAfter s sock y.2.1) (bufAfter buf (sock.inq.take s.batchSize)) backlog (ev ++ y.2.2)
+  toGenServer x y.1 (sockAfter s sock y.2.1) (bufAfter buf (sock.inq.take s.batchSize)) backlog (ev ++ y.2.2)
     ⟨gI.drop y.1.ietf.requests.length, curAfter gI cI y.1.ietf.requests.length⟩
     ⟨gC.drop y.1.classic.requests.length, curAfter gC cC y.1.classic.requests.length⟩
 
@@ -298,24 +326,26 @@ theorem svc_wrap {α : Type} (x : Res (Rs.Flow Gen.Server Gen.Server)) (obs : Ge
   cases x <;> simp [Res.bind, Res.map, hk]
 
 /-- loop rule for `service_socket` over an abstract body: one iteration is one `batchSpec` -/
-theorem service_loop (E : Env) (debug : Bool)
+theorem service_loop (E : Env) (debug : Bool) (x : GenRest)
     (body : Nat → Gen.Server → Res (Rs.Flow Gen.Server Gen.Server))
     (hbody : ∀ i s sock buf backlog ev gI gC cI cC, (∀ a k, sock.ok a k = true) →
       (∀ p ∈ sock.inq, p.1.length ≤ buf.length) →
-      body i (toGenServer s sock buf backlog ev ⟨gI, cI⟩ ⟨gC, cC⟩) ≃ᵣ
+      body i (toGenServer x s sock buf backlog ev ⟨gI, cI⟩ ⟨gC, cC⟩) ≃ᵣ
         (batchSpec E debug s sock gI gC).map fun y =>
-          if sock.inq.length < s.batchSize then Rs.Flow.ret (afterBatch s sock buf false ev gI gC cI cC y)
-          else Rs.Flow.next (afterBatch s sock buf backlog ev gI gC cI cC y)) :
+          if sock.inq.length < s.batchSize then Rs.Flow.ret (afterBatch x s sock buf false ev gI gC cI cC y)
+          else Rs.Flow.next (afterBatch x s sock buf backlog ev gI gC cI cC y)) :
     ∀ (l : List Nat) (s : Server) (sock : Gen.Sock) (buf : Bytes) (backlog : Bool) (ev : List Event)
       (gI gC : List Grease) (cI cC : Grease), (∀ a k, sock.ok a k = true) →
       (∀ p ∈ sock.inq, p.1.length ≤ buf.length) →
-      (Rs.forListR l (toGenServer s sock buf backlog ev ⟨gI, cI⟩ ⟨gC, cC⟩) body).map (fun f => obsSvc (servicePost f))
-        ≃ᵣ (serviceSpec E debug l.length s sock gI gC).map (specObs sock ev) := by
+      (Rs.forListR l (toGenServer x s sock buf backlog ev ⟨gI, cI⟩ ⟨gC, cC⟩) body).map
+          (fun f => (obsSvc (servicePost f), restOf (servicePost f)))
+        ≃ᵣ (serviceSpec E debug l.length s sock gI gC).map (fun y => (specObs sock ev y, x)) := by
   intro l
   induction l with
   | nil =>
     intro s sock buf backlog ev gI gC cI cC _ _
-    simp [serviceSpec, servicePost, obsSvc, specObs, toGenServer, toGenResponder, Res.map, Res.Sim]
+    simp [serviceSpec, servicePost, obsSvc, specObs, restOf_backlog, restOf_toGenServer, Res.map, Res.Sim]
+    simp [toGenServer, toGenResponder]
   | cons i l ih =>
     intro s sock buf backlog ev gI gC cI cC hok hfit
     have hb := hbody i s sock buf backlog ev gI gC cI cC hok hfit
@@ -324,15 +354,16 @@ theorem service_loop (E : Env) (debug : Bool)
     cases h1 : batchSpec E debug s sock gI gC with
     | ok y =>
       rw [h1] at hb
-      cases h2 : body i (toGenServer s sock buf backlog ev ⟨gI, cI⟩ ⟨gC, cC⟩) with
+      cases h2 : body i (toGenServer x s sock buf backlog ev ⟨gI, cI⟩ ⟨gC, cC⟩) with
       | ok st =>
         rw [h2] at hb
         have e : st = _ := hb
         subst e
         obtain ⟨s', sent, ev'⟩ := y
         by_cases hshort : sock.inq.length < s.batchSize
-        · simp [hshort, Res.bind, Res.map, Res.Sim, servicePost, obsSvc, specObs, afterBatch, sockAfter, toGenServer,
-            toGenResponder]
+        · simp [hshort, Res.bind, Res.map, Res.Sim, servicePost, obsSvc, specObs, afterBatch, sockAfter,
+              restOf_toGenServer]
+          simp [toGenServer, toGenResponder]
         · simp only [hshort, if_false, bind_ok_s]
           have hfit' : ∀ p ∈ (sockAfter s sock sent).inq,
               p.1.length ≤ (bufAfter buf (sock.inq.take s.batchSize)).length := by
@@ -354,37 +385,28 @@ theorem service_loop (E : Env) (debug : Bool)
       | panic site => rw [h2] at hb; exact hb.elim
     | err =>
       rw [h1] at hb
-      cases h2 : body i (toGenServer s sock buf backlog ev ⟨gI, cI⟩ ⟨gC, cC⟩) with
+      cases h2 : body i (toGenServer x s sock buf backlog ev ⟨gI, cI⟩ ⟨gC, cC⟩) with
       | ok st => rw [h2] at hb; exact hb.elim
       | err => trivial
       | panic site => rw [h2] at hb; exact hb.elim
     | panic site0 =>
       rw [h1] at hb
-      cases h2 : body i (toGenServer s sock buf backlog ev ⟨gI, cI⟩ ⟨gC, cC⟩) with
+      cases h2 : body i (toGenServer x s sock buf backlog ev ⟨gI, cI⟩ ⟨gC, cC⟩) with
       | ok st => rw [h2] at hb; exact hb.elim
       | err => rw [h2] at hb; exact hb.elim
       | panic site => trivial
 
-/-- `service_socket` = `serviceSpec 16`: same responders afterwards, same backlog flag, same datagrams on the wire in
-    the same order, same statistics events, same remaining queue — for every server state, queue content, clock,
-    fault-injection decisions and log level (all sends succeed, every queued datagram fits in the buffer). -/
-theorem service_socket_sim (E : Env) (hH : ∀ x, (E.H x).length = 64) (LOG : Nat) (s : Server) (sock : Gen.Sock) (buf : Bytes)
+/-- `service_socket` = `serviceSpec 16`, with everything else of the server state (`restOf`) untouched -/
+theorem service_socket_full (E : Env) (hH : ∀ z, (E.H z).length = 64) (LOG : Nat) (x : GenRest) (s : Server) (sock : Gen.Sock) (buf : Bytes)
     (backlog : Bool) (ev : List Event) (gI gC : List Grease) (cI cC : Grease)
     (hok : ∀ a k, sock.ok a k = true) (hfit : ∀ p ∈ sock.inq, p.1.length ≤ buf.length) :
-    (Gen.Server.service_socket E.S E.H LOG (toGenServer s sock buf backlog ev ⟨gI, cI⟩ ⟨gC, cC⟩)).map
-        (fun g => (g.socket_backlog, g.socket.out, g.socket.inq, g.stats_recorder, g.responder_ietf.requests,
-                   g.responder_classic.requests, g.responder_ietf.merkle, g.responder_classic.merkle,
-                   g.responder_ietf.online_key, g.responder_classic.online_key,
-                   g.responder_ietf.grease.pending, g.responder_classic.grease.pending))
-      ≃ᵣ (serviceSpec E (decide (LOG ≥ 4)) 16 s sock gI gC).map
-        (fun y => (y.2.1, sock.out ++ y.2.2.1.map some, y.2.2.2.2.1, ev ++ y.2.2.2.1, y.1.ietf.requests, y.1.classic.requests,
-                   toGenTree y.1.ietf.ver y.1.ietf.tree, toGenTree y.1.classic.ver y.1.classic.tree,
-                   (⟨y.1.ietf.onl, Version.supportedWire⟩ : Gen.OnlineKey), (⟨y.1.classic.onl, Version.supportedWire⟩ : Gen.OnlineKey),
-                   y.2.2.2.2.2.1, y.2.2.2.2.2.2)) := by
+    (Gen.Server.service_socket E.S E.H LOG (toGenServer x s sock buf backlog ev ⟨gI, cI⟩ ⟨gC, cC⟩)).map
+        (fun g => (obsSvc g, restOf g))
+      ≃ᵣ (serviceSpec E (decide (LOG ≥ 4)) 16 s sock gI gC).map (fun y => (specObs sock ev y, x)) := by
   unfold Gen.Server.service_socket
   simp only [Res.pure_eq, Res.bind_eq]
-  rw [map_bind', svc_wrap _ obsSvc _ (fun f => by cases f <;> rfl)]
-  · refine Res.Sim.trans (service_loop E (decide (LOG ≥ 4)) _ ?hbody (List.range 16) s sock buf backlog ev gI gC cI cC hok hfit) ?fin
+  rw [map_bind', svc_wrap _ (fun g => (obsSvc g, restOf g)) _ (fun f => by cases f <;> rfl)]
+  · refine Res.Sim.trans (service_loop E (decide (LOG ≥ 4)) x _ ?hbody (List.range 16) s sock buf backlog ev gI gC cI cC hok hfit) ?fin
     case fin => rw [List.length_range]; exact Res.Sim.refl _
     case hbody =>
       intro i s sock buf backlog ev gI gC cI cC hok hfit
@@ -392,7 +414,7 @@ theorem service_socket_sim (E : Env) (hH : ∀ x, (E.H x).length = 64) (LOG : Na
       rw [batchSpec_eq]
       unfold batchChain
       simp only [map_bind']
-      have hc := collect_requests_exact E hH LOG { s with ietf := s.ietf.reset, classic := s.classic.reset } sock buf
+      have hc := collect_requests_exact E hH LOG x { s with ietf := s.ietf.reset, classic := s.classic.reset } sock buf
         backlog ev ⟨gI, cI⟩ ⟨gC, cC⟩ hfit
       refine Sim.bind_map hc fun y1 => ?_
       dsimp only [toGenServer]
@@ -413,6 +435,26 @@ theorem service_socket_sim (E : Env) (hH : ∀ x, (E.H x).length = 64) (LOG : Na
       dsimp only [Function.comp]
       by_cases hshort : sock.inq.length < s.batchSize <;>
         simp [hshort, Res.map, Res.Sim, afterBatch, sockAfter, toGenServer, hsI.1, hsI.2, hsC.1, hsC.2, Nat.add_assoc]
+
+/-- `service_socket` = `serviceSpec 16`: same responders afterwards, same backlog flag, same datagrams on the wire in
+    the same order, same statistics events, same remaining queue — for every server state, queue content, clock,
+    fault-injection decisions and log level (all sends succeed, every queued datagram fits in the buffer). -/
+theorem service_socket_sim (E : Env) (hH : ∀ z, (E.H z).length = 64) (LOG : Nat) (x : GenRest) (s : Server) (sock : Gen.Sock) (buf : Bytes)
+    (backlog : Bool) (ev : List Event) (gI gC : List Grease) (cI cC : Grease)
+    (hok : ∀ a k, sock.ok a k = true) (hfit : ∀ p ∈ sock.inq, p.1.length ≤ buf.length) :
+    (Gen.Server.service_socket E.S E.H LOG (toGenServer x s sock buf backlog ev ⟨gI, cI⟩ ⟨gC, cC⟩)).map
+        (fun g => (g.socket_backlog, g.socket.out, g.socket.inq, g.stats_recorder, g.responder_ietf.requests,
+                   g.responder_classic.requests, g.responder_ietf.merkle, g.responder_classic.merkle,
+                   g.responder_ietf.online_key, g.responder_classic.online_key,
+                   g.responder_ietf.grease.pending, g.responder_classic.grease.pending))
+      ≃ᵣ (serviceSpec E (decide (LOG ≥ 4)) 16 s sock gI gC).map
+        (fun y => (y.2.1, sock.out ++ y.2.2.1.map some, y.2.2.2.2.1, ev ++ y.2.2.2.1, y.1.ietf.requests, y.1.classic.requests,
+                   toGenTree y.1.ietf.ver y.1.ietf.tree, toGenTree y.1.classic.ver y.1.classic.tree,
+                   (⟨y.1.ietf.onl, Version.supportedWire⟩ : Gen.OnlineKey), (⟨y.1.classic.onl, Version.supportedWire⟩ : Gen.OnlineKey),
+                   y.2.2.2.2.2.1, y.2.2.2.2.2.2)) := by
+  have h := Sim.map_congr (service_socket_full E hH LOG x s sock buf backlog ev gI gC cI cC hok hfit) Prod.fst
+  rw [map_map, map_map] at h
+  exact h
 
 end Bridge
 end Rough
